@@ -44,7 +44,8 @@ class Stalled(Exception):
 # ------------------------------------------------------------------ clock
 class Clock:
     def __init__(self):
-        self.now = EPOCH
+        self.now = EPOCH          # monotonic virtual time: the loop's clock, the kernel ledger, every oracle
+        self.wall_offset = 0.0    # what time.time() is ahead of / behind it (the wall clock can be stepped)
         self.blocked = 0.0        # virtual seconds slept inside the current loop iteration
         self.max_blocked = 0.0    # maximum over the run
         self.block_sites = {}     # site -> max blocked seen
@@ -78,7 +79,12 @@ class VTime(types.ModuleType):
     def time(self):
         c = _CUR.clock
         c.now += 1e-6           # two reads never tie (real clocks do not, at the
-        return c.now            # granularity circus sorts Process.started on)
+        return c.now + c.wall_offset     # granularity circus sorts Process.started on)
+
+    def monotonic(self):
+        c = _CUR.clock
+        c.now += 1e-6
+        return c.now            # never stepped
 
     def sleep(self, d):
         w = _CUR
